@@ -514,6 +514,12 @@ pub fn eval_runtime(c: &PCase16) -> CaseOutcome {
             }
         }
         classes.push(format!("c16/runtime/{}", e.kind));
+        if g.text.as_ref().map(|t| t.len() > 120).unwrap_or(false) {
+            classes.push("c16/runtime/cited-line-longer-than-120-bytes".into());
+        }
+        if r.text.starts_with('\n') {
+            classes.push("c16/runtime/file-begins-with-blank-lines".into());
+        }
         if e.line > 1 {
             nt = true;
         }
@@ -523,6 +529,9 @@ pub fn eval_runtime(c: &PCase16) -> CaseOutcome {
     }
     if !c.trailing_newline {
         classes.push("c16/runtime/no-trailing-newline".into());
+    }
+    if r.text.lines().any(|l| l.len() > 120) {
+        classes.push("c16/runtime/source-has-a-line-longer-than-120-bytes".into());
     }
     classes.sort();
     classes.dedup();
@@ -696,6 +705,8 @@ pub fn run(ctx: &Ctx) {
     let n_d = ctx.tier.pick(150usize, 1_500usize);
     run_cases(ctx, "c16-undefined", n_d, || (crate::c14::raw_s(), any::<u8>(), any::<u8>()), eval_undefined, |_| json!("jump to an undefined label"));
     early_undefined_family(ctx);
+    ctx.require_class("c16/runtime/cited-line-longer-than-120-bytes", 5);
+    ctx.require_class("c16/runtime/file-begins-with-blank-lines", 10);
     for k in ["c16/runtime/print", "c16/runtime/about", "c16/runtime/int3", "c16/runtime/divide-error", "c16/runtime/unsupported-interrupt", "c16/runtime/no-trailing-newline", "c16/semantic/cli", "c16/undefined-label/last-line", "c16/undefined-label/macro-depth-1", "c16/undefined-label/macro-depth-2"] {
         ctx.require_class(k, 15);
     }
